@@ -669,6 +669,7 @@ Proof.
   { intros cols Hm. apply mk_tables_built in Hm. destruct Hm as [Hb ->]. cbn.
     rewrite sort_values_length. repeat split; try reflexivity. assumption. }
   destruct (sort_values (d_consts d)) as [|first rest] eqn:Es; [discriminate|].
+  destruct (o_ci o && negb (str_nodupb (map (fun v => to_lower (g_name v)) (first :: rest)))); [discriminate|].
   destruct (o_notraits o); [apply (Hmk _ H)|].
   destruct (first_columns d o first (g_cells first)) as [cols0| | |]; try discriminate.
   destruct (Nat.eqb (length cols0) 0).
@@ -753,7 +754,7 @@ Section Behaviour.
 
   (* ---- Parse *)
   Definition trait_consts (g : gvalue) : list dyn :=
-    flat_map (fun c => if col_parsable c then owned_cells c g else []) (t_cols t).
+    dyn_dedup (flat_map (fun c => if col_parsable c then owned_cells c g else []) (t_cols t)).
   (* x is one of the parsable trait constants listed in the Parse switch *)
   Definition is_trait_const (x : dyn) : Prop := exists g, In g L /\ In x (trait_consts g).
 
@@ -783,6 +784,28 @@ Section Behaviour.
     - intros [y [Hin Heq]]. apply dyn_eqb_eq in Heq. subst. assumption.
     - intros H. exists x. split; [assumption|apply dyn_eqb_eq; reflexivity].
   Qed.
+
+  Lemma dyn_dedup_from_In : forall l seen x,
+    In x (dyn_dedup_from seen l) <-> In x l /\ ~ In x seen.
+  Proof.
+    induction l as [|a r IH]; intros seen x; simpl.
+    - tauto.
+    - destruct (existsb (dyn_eqb a) seen) eqn:E.
+      + apply existsb_dyn_In in E. rewrite IH. split.
+        * intros [H1 H2]. auto.
+        * intros [[->|H1] H2]; [contradiction|auto].
+      + assert (Hna : ~ In a seen) by (intro H; apply existsb_dyn_In in H; congruence).
+        simpl. rewrite IH. simpl. split.
+        * intros [<-|[H1 H2]]; [auto|]. split; [auto|]. intro H. apply H2. right. assumption.
+        * intros [[<-|H1] H2]; [left; reflexivity|].
+          destruct (dyn_eqb a x) eqn:Eax.
+          -- apply dyn_eqb_eq in Eax. left. assumption.
+          -- right. split; [assumption|]. intros [Hax|Hs]; [|contradiction].
+             subst. assert (T : dyn_eqb x x = true) by (apply dyn_eqb_eq; reflexivity). congruence.
+  Qed.
+
+  Lemma dyn_dedup_In : forall l x, In x (dyn_dedup l) <-> In x l.
+  Proof. intros l x. unfold dyn_dedup. rewrite dyn_dedup_from_In. simpl. tauto. Qed.
 
   Lemma dyn_nodupb_NoDup : forall l, dyn_nodupb l = true -> NoDup l.
   Proof.
@@ -919,6 +942,29 @@ Section Behaviour.
   Qed.
 End Behaviour.
 
+(* generation is defined under -caseInsensitive only when the lower-cased names are pairwise
+   distinct (validateCaseInsensitiveNames): the premise under which C04_parse_name_ci can map
+   every case variant to ONE constant *)
+Lemma built_ci_names_distinct : forall d o t, wf_defn d -> gen d o = Built t -> o_ci o = true ->
+  NoDup (map (fun c => to_lower (c_name c)) (d_consts d)).
+Proof.
+  intros d o t [H1 [H2 H3]] Hg Hci.
+  pose proof (lower_NoDup d o t Hg Hci) as Hl.
+  assert (Hp : Permutation (map (fun v => to_lower (g_name v)) (sort_values (d_consts d)))
+                           (map (fun c => to_lower (c_name c)) (d_consts d))).
+  { eapply perm_trans.
+    - apply Permutation_map. apply sort_values_perm.
+    - unfold gvals. rewrite map_map. apply Permutation_refl. }
+  eapply Permutation_NoDup; [exact Hp|exact Hl].
+Qed.
+
+Lemma ci_collision_rejected : forall d o, o_ci o = true -> sort_values (d_consts d) <> [] ->
+  str_nodupb (map (fun v => to_lower (g_name v)) (sort_values (d_consts d))) = false -> gen d o = GenErr.
+Proof.
+  intros d o Hci Hne Hdup. unfold gen. destruct (sort_values (d_consts d)) as [|first rest]; [contradiction|].
+  rewrite Hci, Hdup. reflexivity.
+Qed.
+
 (* any result of Go's unstable sort.Sort on the collected constants *)
 Lemma sort_any : forall d s, wf_defn d ->
   Permutation s (map to_gvalue (d_consts d)) ->
@@ -1037,7 +1083,7 @@ Section Codecs.
   Lemma roundtrip_json : forall v jv, In v (values_spec cs) ->
     jv_string jv = Some (sem_string t v) -> decode_json t jv = Some v.
   Proof.
-    intros v jv Hv Hs. unfold decode_json, json_attempts. rewrite Hs. simpl.
+    intros v jv Hv Hs. unfold decode_json, json_attempts, json_attempts_gen. rewrite Hs. simpl.
     rewrite (parse_primary v Hv). reflexivity.
   Qed.
   Lemma roundtrip_text : forall v tv, In v (values_spec cs) ->
@@ -1049,7 +1095,7 @@ Section Codecs.
   Lemma roundtrip_yaml : forall v yv, In v (values_spec cs) ->
     yv_value yv = sem_string t v -> decode_yaml t yv = Some v.
   Proof.
-    intros v yv Hv Hs. unfold decode_yaml, yaml_attempts_gen. rewrite Hs. simpl.
+    intros v yv Hv Hs. unfold decode_yaml, yaml_attempts_gen, yaml_attempts_gen2. rewrite Hs. simpl.
     rewrite (parse_primary v Hv). reflexivity.
   Qed.
 
@@ -1104,9 +1150,11 @@ Inductive reading (str : option string) (u64 i64 : option Z) (native : list (str
           (t : tables) (x : dyn) : Prop :=
 | RdStr : forall s, str = Some s -> dval x = PStr s -> reading str u64 i64 native t x
 | RdU64 : forall u c, u64 = Some u -> In c (t_cols t) -> col_parsable c = true ->
-                      x = typed_int c u -> reading str u64 i64 native t x
+                      conv_int (ti_bkind (col_info c)) u = u ->     (* the number fits the trait's type *)
+                      x = typed c (PInt u) -> reading str u64 i64 native t x
 | RdI64 : forall i c, i64 = Some i -> In c (t_cols t) -> col_parsable c = true ->
-                      x = typed_int c i -> reading str u64 i64 native t x
+                      conv_int (ti_bkind (col_info c)) i = i ->
+                      x = typed c (PInt i) -> reading str u64 i64 native t x
 | RdNative : forall c p, In c (t_cols t) -> col_parsable c = true ->
                          lookup (col_type c) native = Some (Some p) -> x = typed c p ->
                          reading str u64 i64 native t x.
@@ -1131,19 +1179,35 @@ Proof.
   destruct Hx as [<-|[]]. destruct (Hc c Hin) as [H1 H2]. eapply RdNative; eauto.
 Qed.
 
+Lemma int_attempts_rc : forall cols x y, In y (int_attempts true cols x) ->
+  exists c, In c cols /\ conv_int (ti_bkind (col_info c)) x = x /\ y = typed c (PInt x).
+Proof.
+  intros cols x y H. unfold int_attempts in H. apply in_flat_map in H. destruct H as [c [Hc Hy]].
+  simpl in Hy. destruct (Z.eqb_spec (conv_int (ti_bkind (col_info c)) x) x) as [E|NE]; simpl in Hy; [|contradiction].
+  destruct Hy as [<-|[]]. exists c. split; [assumption|]. split; [assumption|].
+  unfold typed_int. rewrite E. reflexivity.
+Qed.
+
+Lemma int_attempts_in : forall rc cols c x, In c cols -> conv_int (ti_bkind (col_info c)) x = x ->
+  In (typed_int c x) (int_attempts rc cols x).
+Proof.
+  intros rc cols c x Hc E. unfold int_attempts. apply in_flat_map. exists c. split; [assumption|].
+  rewrite E, Z.eqb_refl. simpl. rewrite andb_false_r. left. reflexivity.
+Qed.
+
 Lemma json_attempts_faithful : forall t jv x, In x (json_attempts t jv) ->
   reading (jv_string jv) (jv_u64 jv) (jv_i64 jv) (jv_native jv) t x.
 Proof.
-  intros t jv x H. unfold json_attempts in H.
+  intros t jv x H. unfold json_attempts, json_attempts_gen in H.
   apply in_app_or in H. destruct H as [H|H].
   - destruct (jv_string jv) as [s|] eqn:E; [|contradiction]. destruct H as [<-|H].
     + eapply RdStr; reflexivity.
     + apply in_map_iff in H. destruct H as [c [<- _]]. eapply RdStr; reflexivity.
   - apply in_app_or in H. destruct H as [H|H].
-    + destruct (jv_u64 jv) as [u|] eqn:E; [|contradiction]. apply in_map_iff in H. destruct H as [c [<- Hc]].
+    + destruct (jv_u64 jv) as [u|] eqn:E; [|contradiction]. apply int_attempts_rc in H. destruct H as [c [Hc [Hr ->]]].
       destruct (family_in _ _ _ _ Hc). eapply RdU64; eauto.
     + apply in_app_or in H. destruct H as [H|H].
-      * destruct (jv_i64 jv) as [i|] eqn:E; [|contradiction]. apply in_map_iff in H. destruct H as [c [<- Hc]].
+      * destruct (jv_i64 jv) as [i|] eqn:E; [|contradiction]. apply int_attempts_rc in H. destruct H as [c [Hc [Hr ->]]].
         destruct (family_in _ _ _ _ Hc). eapply RdI64; eauto.
       * eapply native_attempts_reading; [|exact H]. intros c Hc. apply (family_own_in _ _ _ Hc).
 Qed.
@@ -1161,15 +1225,15 @@ Qed.
 Lemma yaml_attempts_faithful : forall t yv x, In x (yaml_attempts_gen true t yv) ->
   reading (Some (yv_value yv)) (yv_u64 yv) (yv_i64 yv) (yv_native yv) t x.
 Proof.
-  intros t yv x H. unfold yaml_attempts_gen in H. destruct H as [<-|H].
+  intros t yv x H. unfold yaml_attempts_gen, yaml_attempts_gen2 in H. destruct H as [<-|H].
   - eapply RdStr; reflexivity.
   - apply in_app_or in H. destruct H as [H|H].
     + apply in_map_iff in H. destruct H as [c [<- _]]. eapply RdStr; reflexivity.
     + apply in_app_or in H. destruct H as [H|H].
-      * destruct (yv_u64 yv) as [u|] eqn:E; [|contradiction]. apply in_map_iff in H. destruct H as [c [<- Hc]].
+      * destruct (yv_u64 yv) as [u|] eqn:E; [|contradiction]. apply int_attempts_rc in H. destruct H as [c [Hc [Hr ->]]].
         destruct (family_in _ _ _ _ Hc). eapply RdU64; eauto.
       * apply in_app_or in H. destruct H as [H|H].
-        -- destruct (yv_i64 yv) as [i|] eqn:E; [|contradiction]. apply in_map_iff in H. destruct H as [c [<- Hc]].
+        -- destruct (yv_i64 yv) as [i|] eqn:E; [|contradiction]. apply int_attempts_rc in H. destruct H as [c [Hc [Hr ->]]].
            destruct (family_in _ _ _ _ Hc). eapply RdI64; eauto.
         -- eapply native_attempts_reading; [|exact H]. intros c Hc. apply (family_own_in _ _ _ Hc).
 Qed.
@@ -1298,6 +1362,7 @@ Proof.
   { intros vs cols Hm Ho. apply mk_tables_built in Hm. destruct Hm as [_ ->]. exact Ho. }
   destruct (sort_values (d_consts d)) as [|first rest] eqn:Es; [discriminate|].
   assert (Hnil : cols_owned (first :: rest) []) by (intros c r []).
+  destruct (o_ci o && negb (str_nodupb (map (fun v => to_lower (g_name v)) (first :: rest)))); [discriminate|].
   destruct (o_notraits o); [apply (Hmk _ _ H Hnil)|].
   destruct (first_columns d o first (g_cells first)) as [cols0| | |] eqn:Ef; try discriminate.
   destruct (Nat.eqb (length cols0) 0).
@@ -1371,7 +1436,7 @@ Section Traits.
     intros c r Hc Hp Hr. unfold sem_parse. rewrite (B_all d o t Hgen). fold cs. fold L.
     set (x := cl_val (r_cell r)).
     assert (Hown : In x (case_consts (t_cols t) (r_owner r))).
-    { unfold case_consts. right. apply in_flat_map. exists c. split; [assumption|]. rewrite Hp.
+    { unfold case_consts. right. apply dyn_dedup_In. apply in_flat_map. exists c. split; [assumption|]. rewrite Hp.
       unfold owned_cells. apply in_map_iff. exists r. split; [reflexivity|].
       apply filter_In. split; [assumption|apply String.eqb_refl]. }
     set (f := fun g => existsb (dyn_eqb x) (case_consts (t_cols t) g)).
@@ -1408,20 +1473,20 @@ Section Traits.
   Lemma json_tries_string : forall c jv s, In c (family t KString ti_json_own) -> jv_string jv = Some s ->
     In (typed c (PStr s)) (json_attempts t jv).
   Proof.
-    intros c jv s Hc Hs. unfold json_attempts. rewrite Hs. apply in_or_app. left. right.
+    intros c jv s Hc Hs. unfold json_attempts, json_attempts_gen. rewrite Hs. apply in_or_app. left. right.
     apply in_map_iff. exists c. split; [reflexivity|assumption].
   Qed.
   Lemma json_tries_uint : forall c jv u, In c (family t KUint64 ti_json_own) -> jv_u64 jv = Some u ->
-    In (typed_int c u) (json_attempts t jv).
+    conv_int (ti_bkind (col_info c)) u = u -> In (typed_int c u) (json_attempts t jv).
   Proof.
-    intros c jv u Hc Hu. unfold json_attempts. rewrite Hu. apply in_or_app. right. apply in_or_app. left.
-    apply in_map_iff. exists c. split; [reflexivity|assumption].
+    intros c jv u Hc Hu Hr. unfold json_attempts, json_attempts_gen. rewrite Hu. apply in_or_app. right. apply in_or_app. left.
+    apply int_attempts_in; assumption.
   Qed.
   Lemma json_tries_int : forall c jv i, In c (family t KInt64 ti_json_own) -> jv_i64 jv = Some i ->
-    In (typed_int c i) (json_attempts t jv).
+    conv_int (ti_bkind (col_info c)) i = i -> In (typed_int c i) (json_attempts t jv).
   Proof.
-    intros c jv i Hc Hi. unfold json_attempts. rewrite Hi. apply in_or_app. right. apply in_or_app. right.
-    apply in_or_app. left. apply in_map_iff. exists c. split; [reflexivity|assumption].
+    intros c jv i Hc Hi Hr. unfold json_attempts, json_attempts_gen. rewrite Hi. apply in_or_app. right. apply in_or_app. right.
+    apply in_or_app. left. apply int_attempts_in; assumption.
   Qed.
   Lemma native_tries : forall cols nat_view c p, In c cols -> lookup (col_type c) nat_view = Some (Some p) ->
     In (typed c p) (native_attempts cols nat_view).
@@ -1432,30 +1497,30 @@ Section Traits.
   Lemma json_tries_native : forall c jv p, In c (family_own t ti_json_own) ->
     lookup (col_type c) (jv_native jv) = Some (Some p) -> In (typed c p) (json_attempts t jv).
   Proof.
-    intros c jv p Hc Hl. unfold json_attempts. apply in_or_app. right. apply in_or_app. right.
+    intros c jv p Hc Hl. unfold json_attempts, json_attempts_gen. apply in_or_app. right. apply in_or_app. right.
     apply in_or_app. right. apply native_tries; assumption.
   Qed.
   Lemma yaml_tries_string : forall c yv, In c (family t KString ti_yaml_own) ->
     In (typed c (PStr (yv_value yv))) (yaml_attempts_gen true t yv).
   Proof.
-    intros c yv Hc. unfold yaml_attempts_gen. right. apply in_or_app. left. apply in_map_iff. exists c. split; [reflexivity|assumption].
+    intros c yv Hc. unfold yaml_attempts_gen, yaml_attempts_gen2. right. apply in_or_app. left. apply in_map_iff. exists c. split; [reflexivity|assumption].
   Qed.
   Lemma yaml_tries_uint : forall c yv u, In c (family t KUint64 ti_yaml_own) -> yv_u64 yv = Some u ->
-    In (typed_int c u) (yaml_attempts_gen true t yv).
+    conv_int (ti_bkind (col_info c)) u = u -> In (typed_int c u) (yaml_attempts_gen true t yv).
   Proof.
-    intros c yv u Hc Hu. unfold yaml_attempts_gen. rewrite Hu. right. apply in_or_app. right.
-    apply in_or_app. left. apply in_map_iff. exists c. split; [reflexivity|assumption].
+    intros c yv u Hc Hu Hr. unfold yaml_attempts_gen, yaml_attempts_gen2. rewrite Hu. right. apply in_or_app. right.
+    apply in_or_app. left. apply int_attempts_in; assumption.
   Qed.
   Lemma yaml_tries_int : forall c yv i, In c (family t KInt64 ti_yaml_own) -> yv_i64 yv = Some i ->
-    In (typed_int c i) (yaml_attempts_gen true t yv).
+    conv_int (ti_bkind (col_info c)) i = i -> In (typed_int c i) (yaml_attempts_gen true t yv).
   Proof.
-    intros c yv i Hc Hi. unfold yaml_attempts_gen. rewrite Hi. right. apply in_or_app. right.
-    apply in_or_app. right. apply in_or_app. left. apply in_map_iff. exists c. split; [reflexivity|assumption].
+    intros c yv i Hc Hi Hr. unfold yaml_attempts_gen, yaml_attempts_gen2. rewrite Hi. right. apply in_or_app. right.
+    apply in_or_app. right. apply in_or_app. left. apply int_attempts_in; assumption.
   Qed.
   Lemma yaml_tries_native : forall c yv p, In c (family_own t ti_yaml_own) ->
     lookup (col_type c) (yv_native yv) = Some (Some p) -> In (typed c p) (yaml_attempts_gen true t yv).
   Proof.
-    intros c yv p Hc Hl. unfold yaml_attempts_gen. right. apply in_or_app. right. apply in_or_app. right.
+    intros c yv p Hc Hl. unfold yaml_attempts_gen, yaml_attempts_gen2. right. apply in_or_app. right. apply in_or_app. right.
     apply in_or_app. right. apply native_tries; assumption.
   Qed.
   Lemma text_tries_string : forall c tv, In c (family t KString ti_text_own) ->
@@ -1493,3 +1558,25 @@ Section Traits.
     eapply try_all_unique; [exact Hin|apply (parse_trait_row c r Hc Hp Hr)|exact Hu].
   Qed.
 End Traits.
+
+(* ---- before the range check (fix C05-numeric-trait-range-check): a parsable uint8 trait
+   Code = 1/2; the number 257 is not a trait value, yet uint8(257) = 1 and the document decoded
+   to the value whose Code is 1.  The current decoders reject it and still accept 1. *)
+Definition nw_cell (var : string) (z : Z) : cell :=
+  {| cl_var := var; cl_expr := "uint8(" ++ dec z ++ ")"; cl_val := {| dty := "uint8"; dval := PInt z |} |}.
+Definition nw_defn : defn :=
+  {| d_ty := {| ty_name := "E0"; ty_signed := true; ty_bits := 64 |};
+     d_consts := [ {| c_name := "A"; c_val := 0; c_dep := false; c_cells := [nw_cell "_Code" 1] |};
+                   {| c_name := "B"; c_val := 1; c_dep := false; c_cells := [nw_cell "_" 2] |} ];
+     d_types := [("uint8", {| ti_bkind := BUint8; ti_json_own := false; ti_yaml_own := false; ti_text_own := false |})] |}.
+Definition nw_opts : opts :=
+  {| o_json := true; o_yaml := true; o_text := true; o_ci := false; o_notraits := false; o_parsable := ["Code"] |}.
+Definition nw_json (z : Z) : jview := {| jv_string := None; jv_u64 := Some z; jv_i64 := Some z; jv_native := [] |}.
+Definition nw_yaml (z : Z) : yview := {| yv_value := dec z; yv_u64 := Some z; yv_i64 := Some z; yv_native := [] |}.
+
+Lemma decode_norc_refuted :
+  exists t, gen nw_defn nw_opts = Built t
+            /\ decode_json_norc t (nw_json 257) = Some 0 /\ decode_yaml_norc t (nw_yaml 257) = Some 0
+            /\ decode_json t (nw_json 257) = None /\ decode_yaml t (nw_yaml 257) = None
+            /\ decode_json t (nw_json 1) = Some 0 /\ decode_yaml t (nw_yaml 2) = Some 1.
+Proof. eexists. split; [vm_compute; reflexivity|]. vm_compute. repeat split. Qed.
